@@ -171,6 +171,9 @@ func genWP(t *rapid.T) WPCase {
 	if rapid.IntRange(0, 4).Draw(t, "hasFooter") > 0 {
 		c.Footer = "Company confidential " + rapid.StringMatching(`[A-Z][a-z]{3,8}`).Draw(t, "fw")
 	}
+	if c.Header != "" && c.Footer != "" && rapid.IntRange(0, 5).Draw(t, "sameBanner") == 0 {
+		c.Footer = c.Header // one banner line at the top and at the bottom of every page
+	}
 	if c.Format == "odt" && c.Header != "" && rapid.Bool().Draw(t, "leftHeader") {
 		c.Left = "Left page title " + rapid.StringMatching(`[A-Z][a-z]{3,8}`).Draw(t, "lw")
 	}
@@ -215,6 +218,9 @@ func metaWP(c WPCase) vr.Meta {
 	}
 	if c.Left != "" {
 		labels = append(labels, "wp:left-header")
+	}
+	if c.Header != "" && c.Header == c.Footer {
+		labels = append(labels, "wp:header-equals-footer")
 	}
 	seen := map[string]bool{}
 	var u []string
